@@ -4,6 +4,7 @@ package main
 
 import (
 	"bytes"
+	corestore "cosmossdk.io/core/store"
 	"fmt"
 	"sort"
 
@@ -106,6 +107,36 @@ func checkReader(what string, t immReader, c smap, probes [][]byte) *Violation {
 	if d := diffPairs(got, ps); d != "" {
 		return viol("reads", "%s.Iterate: %s", what, d)
 	}
+	// ordered iteration through the Iterator interface (both directions over everything)
+	if itr, ok := t.(interface {
+		Iterator(start, end []byte, ascending bool) (corestore.Iterator, error)
+	}); ok {
+		for _, asc := range []bool{true, false} {
+			it, err := itr.Iterator(nil, nil, asc)
+			if err != nil {
+				return viol("reads", "%s.Iterator(nil,nil,%v): %v", what, asc, err)
+			}
+			var got []kvp
+			for ; it.Valid(); it.Next() {
+				got = append(got, kvp{append([]byte{}, it.Key()...), append([]byte{}, it.Value()...)})
+			}
+			ierr := it.Error()
+			_ = it.Close()
+			if ierr != nil {
+				return viol("reads", "%s.Iterator(nil,nil,%v) error: %v", what, asc, ierr)
+			}
+			want := ps
+			if !asc {
+				want = make([]kvp, len(ps))
+				for i := range ps {
+					want[len(ps)-1-i] = ps[i]
+				}
+			}
+			if d := diffPairs(got, want); d != "" {
+				return viol("reads", "%s.Iterator(nil,nil,asc=%v): %s", what, asc, d)
+			}
+		}
+	}
 	return nil
 }
 
@@ -193,3 +224,6 @@ func (r mutReader) GetWithIndex(k []byte) (int64, []byte, error)    { return r.t
 func (r mutReader) GetByIndex(i int64) ([]byte, []byte, error)      { return r.t.GetByIndex(i) }
 func (r mutReader) Size() int64                                     { return r.t.Size() }
 func (r mutReader) Iterate(fn func(k, v []byte) bool) (bool, error) { return r.t.Iterate(fn) }
+func (r mutReader) Iterator(start, end []byte, asc bool) (corestore.Iterator, error) {
+	return r.t.Iterator(start, end, asc)
+}
